@@ -1,6 +1,7 @@
 // C20 — code points encode to standard UTF-8/16/32 and \u escapes decode to them.
 // Oracle: an encoder written here from the Unicode standard (independent of Unicode.hpp).
 #include "common/pbt.hpp"
+#include <sys/mman.h>
 
 using namespace Qentem;
 
@@ -102,8 +103,73 @@ std::vector<uint32_t> run_neighbours(uint32_t cp, unsigned salt) {
     return o;
 }
 
+// form 6: the escape of c.cp in front of a plain run, in a document that is mapped a multiple of 2^32 units (plus a few) away from the
+// storage of the caller's scratch stream, which has to grow for the run: the decoded string is the scalar's encoding and the run, not
+// the stream's own content (a pointer difference narrowed to the 32-bit size type takes the document for a part of the stream)
+template <typename Char_T>
+void run_far(const Case &c, pbt::Ctx &ctx) {
+    std::string doc = "[\"" + escape_text(c.cp, 3);
+    const unsigned run = 40 + (c.cp % 90);
+    for (unsigned i = 0; i < run; ++i) {
+        doc.push_back(char('a' + (i + c.cp) % 26));
+    }
+    doc += "\"]";
+    std::vector<uint32_t> expect = ref_encode(c.cp, int(sizeof(Char_T)));
+    for (unsigned i = 0; i < run; ++i) {
+        expect.push_back(uint32_t('a' + (i + c.cp) % 26));
+    }
+    StringStream<Char_T> stream;
+    for (int i = 0; i < 12; ++i) {
+        stream += Char_T('s');
+    }
+    stream.Clear(); // storage of a dozen units, nothing in it
+    if (stream.First() == nullptr && stream.Storage() == nullptr) {
+        return;
+    }
+    const Char_T   *own  = stream.Storage();
+    const uintptr_t want = uintptr_t(own) + (uintptr_t(1 + c.cp % 3) << 32) * sizeof(Char_T) - uintptr_t(2 + c.cp % 7) * sizeof(Char_T);
+    const uintptr_t page = want & ~uintptr_t(4095);
+    const size_t    len  = size_t((want - page) + doc.size() * sizeof(Char_T) + 4095) & ~size_t(4095);
+    void           *map  = mmap(reinterpret_cast<void *>(page), len, PROT_READ | PROT_WRITE, MAP_PRIVATE | MAP_ANONYMOUS | MAP_FIXED_NOREPLACE, -1, 0);
+    if (map == MAP_FAILED || map != reinterpret_cast<void *>(page)) {
+        if (map != MAP_FAILED) {
+            munmap(map, len);
+        }
+        ctx.label("far-document-address-taken");
+        return;
+    }
+    Char_T *buf = reinterpret_cast<Char_T *>(want);
+    for (size_t i = 0; i < doc.size(); ++i) {
+        buf[i] = Char_T((unsigned char)doc[i]);
+    }
+    std::vector<uint32_t> got;
+    bool                  shape = true;
+    {
+        Value<Char_T> v = JSON::Parse(stream, static_cast<const Char_T *>(buf), SizeT(doc.size()));
+        shape           = v.IsArray() && v.Size() == 1 && v.GetValue(0) != nullptr && v.GetValue(0)->IsString();
+        if (shape) {
+            const Value<Char_T> *s = v.GetValue(0);
+            for (SizeT i = 0; i < s->Length(); ++i) {
+                got.push_back(unit(s->StringStorage()[i]));
+            }
+        }
+    }
+    munmap(map, len);
+    ctx.label("far-document-parsed");
+    if (!shape) {
+        ctx.fail("escape-rejected", "document with \\u escape (mapped far from the scratch stream) was not parsed to [string]: " + doc);
+    }
+    if (got != expect) {
+        ctx.deviation("encoding-mismatch-far-document", "got " + pbt::enc_units(got) + " expected " + pbt::enc_units(expect));
+    }
+}
+
 template <typename Char_T>
 void run_width(const Case &c, pbt::Ctx &ctx) {
+    if (c.form == 6) {
+        run_far<Char_T>(c, ctx);
+        return;
+    }
     std::vector<uint32_t> expect = ref_encode(c.cp, int(sizeof(Char_T)));
     std::vector<uint32_t> got;
     std::vector<uint32_t> pre, post;
@@ -227,7 +293,7 @@ struct H {
             Case c;
             c.cp    = std::get<0>(t);
             c.width = std::get<1>(t);
-            c.form  = (std::get<2>(t) == 79) ? 4 : (std::get<2>(t) >= 64) ? 5 : std::get<2>(t) % 4; // one case in eighty: the long-string form; one in five: a run of escapes
+            c.form  = (std::get<2>(t) == 79) ? 4 : (std::get<2>(t) >= 72) ? 6 : (std::get<2>(t) >= 64) ? 5 : std::get<2>(t) % 4; // one case in eighty: the long-string form; one in five: a run of escapes
             return c;
         });
     }
@@ -253,7 +319,7 @@ struct H {
         if (c.cp > 0x7F || c.form != 0) {
             ctx.nontrivial();
         }
-        ctx.label(c.form == 0 ? "direct" : c.form == 1 ? "escape-upper" : c.form == 2 ? "escape-lower" : c.form == 3 ? "escape-embedded-mixed" : c.form == 4 ? "escape-deep-in-a-long-string" : "escape-in-a-run-of-escapes");
+        ctx.label(c.form == 0 ? "direct" : c.form == 1 ? "escape-upper" : c.form == 2 ? "escape-lower" : c.form == 3 ? "escape-embedded-mixed" : c.form == 4 ? "escape-deep-in-a-long-string" : c.form == 5 ? "escape-in-a-run-of-escapes" : "escape-in-a-far-document");
         ctx.label(c.cp < 0x80 ? "ascii" : c.cp < 0x800 ? "2-byte-range" : c.cp < 0x10000 ? "bmp" : "astral");
         switch (c.width) {
             case 1: run_width<char>(c, ctx); break;
@@ -284,9 +350,9 @@ struct H {
                         return;
                     }
                 }
-                for (int form = 0; form < 6; ++form) {
-                    if (form == 4 || (form == 5 && (cp % 13) != 5 && cp != 0x10000 && cp != 0xFFFF && cp != 0xD7FF && cp != 0xE000)) {
-                        continue; // (the run-of-escapes form for one scalar in thirteen)
+                for (int form = 0; form < 7; ++form) {
+                    if (form == 4 || (form == 5 && (cp % 13) != 5 && cp != 0x10000 && cp != 0xFFFF && cp != 0xD7FF && cp != 0xE000) || (form == 6 && (cp % 101) != 7)) {
+                        continue; // (the run-of-escapes form for one scalar in thirteen, the far-document form for one in a hundred and one)
                     }
                     Case c;
                     c.cp    = cp;
